@@ -5,5 +5,5 @@ CONSTANTS
   Ids = {0,1,2}
   Mode = "set"
   MaxLen = 2
-INVARIANTS OnlyIfNamed UnambiguousGrantsHold ReadNeverImpliesWrite ActionsNeverMix OrgScopedNeverCrossesOrgs TypeNeverCrosses EmptyGrantsNothing
+INVARIANTS OnlyIfNamed UnambiguousGrantsHold ReadNeverImpliesWrite ActionsNeverMix OrgScopedNeverCrossesOrgs TypeNeverCrosses EmptyGrantsNothing BoundsConsistent
 CHECK_DEADLOCK FALSE
